@@ -601,6 +601,7 @@ let oracle (kind : string) (body : sexp list) (impl : string) : string option =
       if impl = "-" then Some "ok" else
       let pipe = List.nth body 0 in
       let scripts = List.map (fun s -> match s with List l -> l | Atom _ -> failwith "bad script") (args (List.nth body 1)) in
+      let setup = (match List.nth_opt body 3 with Some s -> args s | None -> []) in
       let (tr, ending) = i2trace_of impl in
       let delivered = List.filter_map (function I2Ev (e, _, _) -> Some e | _ -> None) tr in
       let rec quiet gone = function
@@ -654,9 +655,43 @@ let oracle (kind : string) (body : sexp list) (impl : string) : string option =
             | [], _ -> true | _, [] -> false
             | x :: a', y :: b' -> if x = y then subseq a' b' else subseq a b') in
         let known = List.concat sources in
+        (* when nobody unsubscribes, nothing fails, the outer stream completes, every hot inner observable completes
+           after its items and is handed over before them (one thread does all three), the output must hold every item
+           and end with the completion: "complete exactly when the outer and all inner streams have completed" *)
+        let scripts = setup :: scripts in     (* for the source tables below the prologue is one more script *)
+        let all_ops = List.concat scripts in
+        let clean = not (List.exists (fun o -> match o with
+            | Atom "u" -> true
+            | List [Atom "o"; List [Atom "e"; _]] -> true
+            | List [Atom "i"; _; List [Atom "e"; _]] -> true
+            | List [Atom "o"; List (Atom "coldi" :: evs)] -> List.exists (function List [Atom "e"; _] -> true | _ -> false) evs || not (List.mem (Atom "c") evs)
+            | _ -> false) all_ops) in
+        let outer_done = List.mem (List [Atom "o"; Atom "c"]) all_ops in
+        let hot_ok = List.for_all (fun sc ->
+            (* per thread: a hot inner observable's events come after the operation that hands it over, and it completes *)
+            let rec go handed = function
+              | [] -> true
+              | List [Atom "o"; List [Atom "hoti"; k]] :: r -> go (int_of k :: handed) r
+              | List [Atom "i"; k; _] :: r -> List.mem (int_of k) handed && go handed r
+              | _ :: r -> go handed r in
+            let in_setup = List.filter_map (function List [Atom "o"; List [Atom "hoti"; k]] -> Some (int_of k) | _ -> None) setup in
+            go (if sc == setup then [] else in_setup) sc) scripts
+          && List.for_all (fun o -> match o with
+                | List [Atom "o"; List [Atom "hoti"; k]] -> List.mem (List [Atom "i"; k; Atom "c"]) all_ops
+                | _ -> true) all_ops in
+        (* the outer completion must come last in the merged order for the claim to be unconditional: it is when it is the
+           last operation of its thread and every other thread only feeds inner observables handed over before (one thread
+           handing everything over is the generated shape) *)
+        let outer_last = List.for_all (fun sc -> not (List.mem (List [Atom "o"; Atom "c"]) sc) ||
+                                                 (match List.rev sc with List [Atom "o"; Atom "c"] :: _ -> true | _ -> false)) scripts
+                         && List.length (List.filter (fun sc -> sc != setup && List.exists (function List (Atom "o" :: _) -> true | _ -> false) sc) scripts) = 1 in
         if List.exists (fun v -> not (List.mem v known)) items then Some "reject:C05 an item no inner observable emitted"
-        else if List.for_all (fun src -> subseq (List.filter (fun v -> List.mem v src) items) src) sources then Some "ok"
-        else Some "reject:C05 an inner observable's item delivered twice or out of its order"
+        else if not (List.for_all (fun src -> subseq (List.filter (fun v -> List.mem v src) items) src) sources)
+        then Some "reject:C05 an inner observable's item delivered twice or out of its order"
+        else if clean && outer_done && hot_ok && outer_last &&
+                not (List.length items = List.length known && (match List.rev delivered with Done :: _ -> true | _ -> false))
+        then Some "reject:C05 the outer stream and every inner observable have completed, yet an item is missing or the output did not complete"
+        else Some "ok"
       end
       else if List.exists (fun m -> i2_sequential pipe m = delivered) (merges scripts) then Some "ok"
       else Some "nocorr:the delivered sequence is not what the sequential model gives for any merge of the threads' operations"
